@@ -43,8 +43,10 @@ public:
     UniformDispersalKernel(int row_max, int col_max)
         : row_max_(row_max),
           col_max_(col_max),
-          row_distribution(0, row_max),
-          col_distribution(0, col_max)
+          // row_max and col_max are the numbers of rows and columns
+          // (that is what all callers pass), so the last valid index is one less.
+          row_distribution(0, row_max > 0 ? row_max - 1 : 0),
+          col_distribution(0, col_max > 0 ? col_max - 1 : 0)
     {}
 
     /*! \copybrief RadialDispersalKernel::operator()()
